@@ -364,7 +364,7 @@ class C11(runner.Check):
         nstates = 0
         for tvs in values.arrays(T, N, M, K=6):
             nstates += 1
-            if nstates > (100 if tier == "quick" else 600):
+            if nstates > (100 if tier == "quick" else 250):
                 st.caps.append("type %s: state cap reached" % values.tstr(T))
                 break
             for d, names in encs.encodings(T, tvs, 1):
@@ -394,7 +394,7 @@ class C11(runner.Check):
                                          op=opname, msgclass=msgclass(ve), input_top=top_family(d),
                                          has_string=has_string(d), has_record=has_record(d),
                                          has_empty_record=has_record(d, True), has_option=has_option(d))
-                        elif depth2 and nstates <= 40:
+                        elif depth2 and nstates <= 12 and not isinstance(r, ext.Record):
                             rd = ext.describe(r)
                             for op2, args2, fn2 in opalpha.ops_for(rd, None, "quick", small=True):
                                 no += 1
@@ -412,7 +412,8 @@ class C11(runner.Check):
                                                      "%s%r after %s%r on %s returned an invalid array: %s" % (
                                                          op2, args2, opname, args, layouts.short(d), ve2[:200]),
                                                      {"part": "b", "layout": layouts.to_json(d), "op": opname, "args": list(args),
-                                                      "op2": op2, "args2": list(args2)}, op=op2, msgclass=msgclass(ve2),
+                                                      "op2": op2, "args2": list(args2)}, op=op2, chain=True, first_op=opname,
+                                                     msgclass=msgclass(ve2),
                                                      input_top=top_family(rd), has_string=has_string(rd),
                                                      has_record=has_record(rd), has_empty_record=has_record(rd, True), has_option=has_option(rd))
                     st.outcome(opname + ":ok")
